@@ -23,6 +23,7 @@ RULE = (
     "cells = step {setup M2,M4,M6; verify M2,M4; verify M2 answering a pair-resume request} x error encoding {0x01..0x07, 0x00, 0x08, 0xFF, empty, two-byte, none} x"
     " State {expected, every other value 0..7, 255, EMPTY item (06 00), two-byte values, absent} x EVERY subset of the step's other fields (valid values from the"
     " reference accessory of a real exchange) x item order {State,Error,others / State,others,Error} x feed mode"
+    " (plus: a field the step does not expect - RetryDelay, Permissions, unknown type - before State/Error or between them)"
     " {ip: decode_bytes(expected=...), ble: decoded dict}; plus IP and BLE add-pairing / remove-pairing against a scripted"
     " /pairings reply over the same code x state x extra-field grid. A cell is judged when it carries an Error or a wrong"
     " State. Distinct by the cell tuple; non-trivial = judged cells."
@@ -96,6 +97,18 @@ def all_cells():
                             if step == "verify-M2-resume" and mode == "ip":
                                 continue  # resumption is only requested by the BLE transport
                             cells.append((step, err, st, sub, order, mode))
+        # fields the step does not expect at all (RetryDelay accompanies a Backoff error in the specification, Permissions,
+        # an unknown type), placed BEFORE the State / Error items or between them: TLV items carry no order
+        for err in ERRORS:
+            if err is None:
+                continue
+            for st in (exp_state, None):
+                for ftype in (8, 11, 0x42):
+                    for order in ("foreign-first", "foreign-after-state"):
+                        for mode in ("ip", "ble"):
+                            if step == "verify-M2-resume" and mode == "ip":
+                                continue
+                            cells.append((step, err, st, (ftype,), order, mode))
     return cells
 
 
@@ -108,6 +121,9 @@ def build_reply(genuine_items, err, st, sub, order):
             others.append((t, b"\xa5" * 40))
     head = [] if st is None else [(6, state_bytes(st))]
     e = [] if err is None else [(7, err)]
+    if order.startswith("foreign"):
+        foreign = [(sub[0], b"\x05")]
+        return foreign + head + e if order == "foreign-first" else head + foreign + e
     if order == "error-first":
         return head + e + others
     return head + others + e
